@@ -55,16 +55,24 @@ structure RShape where
   answer : Nat → List Nat
   /-- what `_execution` returns right after the request at this address was placed -/
   fills : Nat → List FillS
+  /-- the sessions' lengths (`iteration_steps`), for the shapes of `_run` -/
+  steps : List Nat := [1]
+  /-- a before-step hook for market `m`, dispatched when the clocks were advanced `ticks` times so far,
+  switches the execution flag of the session in force on (a trading halt ends) -/
+  resume : Nat → Nat → Bool := fun _ _ => false
 
 def mktAddr (m : Nat) : Nat := 5 + m
 def agentAddr (a : Nat) : Nat := 20 + a
 /-- the log `_add_order` / `_cancel_order` returns for the request at `r` -/
 def logAddr (r : Nat) : Nat := r + 100
 
+def sessAddr (k : Nat) : Nat := if k = 0 then 4 else 9
+
 def runnerObj : String → Option Val
   | "__class__" => some (.str "SequentialRunner")
   | "_prng" => some (.ref 2)
   | "simulator" => some (.ref 3)
+  | "logger" => some (.ref 8)
   | _ => none
 
 def rsimObj (sh : RShape) : String → Option Val
@@ -74,17 +82,19 @@ def rsimObj (sh : RShape) : String → Option Val
   | "markets" => some (.list [.ref 5, .ref 6])
   | "high_frequency_agents" => some (.list (sh.hft.map (fun a => .ref (agentAddr a))))
   | "normal_frequency_agents" => some (.list (sh.normal.map (fun a => .ref (agentAddr a))))
+  | "sessions" => some (.list ((List.range sh.steps.length).map (fun k => .ref (sessAddr k))))
   | _ => none
 
-/-- the session: placement = bool atom 1, execution = bool atom 2, rate = num atom 1, caps = int atoms 1
-(high-frequency) and 2 (normal) -/
-def rsessionObj : String → Option Val
+/-- session `k` (0 or 1): placement = bool atom 1 + 10k, execution = bool atom 2 + 10k, rate = num atom 1
+(session 0) / 100 (session 1), caps = int atoms 1 + 10k (high-frequency) and 2 + 10k (normal) -/
+def rsessionObj (sh : RShape) (k : Nat) : String → Option Val
   | "__class__" => some (.str "Session")
-  | "with_order_placement" => some (.bool (.atom 1))
-  | "with_order_execution" => some (.bool (.atom 2))
-  | "high_frequency_submission_rate" => some (.num (.atom 1))
-  | "max_high_frequency_orders" => some (.int (.atom 1))
-  | "max_normal_orders" => some (.int (.atom 2))
+  | "with_order_placement" => some (.bool (.atom (1 + 10 * k)))
+  | "with_order_execution" => some (.bool (.atom (2 + 10 * k)))
+  | "high_frequency_submission_rate" => some (.num (.atom (if k = 0 then 1 else 100)))
+  | "max_high_frequency_orders" => some (.int (.atom (1 + 10 * k)))
+  | "max_normal_orders" => some (.int (.atom (2 + 10 * k)))
+  | "iteration_steps" => some (.int (.lit (sh.steps.getD k 0)))
   | _ => none
 
 def ragentObj (a : Nat) : String → Option Val
@@ -116,7 +126,8 @@ def allFills (sh : RShape) : List FillS := sh.reqs.flatMap (fun r => sh.fills r.
 
 def rHeap (sh : RShape) : Nat → String → Option Val :=
   fun addr =>
-    if addr = 1 then runnerObj else if addr = 3 then rsimObj sh else if addr = 4 then rsessionObj
+    if addr = 1 then runnerObj else if addr = 3 then rsimObj sh else if addr = 4 then rsessionObj sh 0
+    else if addr = 9 then rsessionObj sh 1
     else if 21 ≤ addr ∧ addr ≤ 24 then ragentObj (addr - 20)
     else match sh.reqs.find? (fun r => r.addr = addr) with
       | some r => reqObj r
@@ -144,14 +155,28 @@ def lastRequest : List Call → Option Nat
 
 def drawsSoFar (cs : List Call) : Nat := (cs.filter (fun c => c.fn = "random")).length
 
+def ticksSoFar (cs : List Call) : Nat := (cs.filter (fun c => c.fn = "_update_times_on_markets")).length
+
+/-- the session in force: what `_run` stored in `simulator.current_session`, else session 0 -/
+def curSession (st : St) : Nat :=
+  match st.heap 3 "current_session" with
+  | some (.ref a) => a
+  | _ => 4
+
 /-- the oracle -/
 def rExt (sh : RShape) : Ext := fun st recv fn args =>
   match recv, fn, args with
   | .ref 2, "sample", [.list l, _] =>
-    if l.length = sh.batches.length ∧ (st.calls.all (fun c => c.fn ≠ "sample")) ∧ sh.normal = [] then
+    if sh.normal = [] ∧ l.length = sh.batches.length ∧ (st.calls.all (fun c => c.fn ≠ "sample")) then
       some (.list (sh.shuffled.map refs), st)
-    else if sh.normal = [] then some (.list (sh.perm.map (fun a => .ref (agentAddr a))), st)
-    else some (.list (sh.nperm.map (fun a => .ref (agentAddr a))), st)
+    else
+      match l with
+      | [] => some (.list [], st)
+      | .list _ :: _ => some (.list (sh.shuffled.map refs), st)
+      | .ref a :: _ =>
+        if sh.normal.any (fun x => agentAddr x = a) then some (.list (sh.nperm.map (fun a => .ref (agentAddr a))), st)
+        else some (.list (sh.perm.map (fun a => .ref (agentAddr a))), st)
+      | _ => none
   | .ref 2, "random", [] => some (.num (.atom (2 + drawsSoFar st.calls)), st)
   | .ref 3, "_trigger_event_before_order", [_] => some (.none, st)
   | .ref 3, "_trigger_event_after_order", [_] => some (.none, st)
@@ -160,8 +185,25 @@ def rExt (sh : RShape) : Ext := fun st recv fn args =>
   | .ref 3, "_update_agents_for_execution", [_] => some (.none, st)
   | .ref 3, "_trigger_event_after_execution", [.ref f] =>
     if (allFills sh).any (fun x => x.addr = f ∧ x.halts) then
-      some (.none, st.set 4 "with_order_execution" (.bool (.lit false)))
+      some (.none, st.set (curSession st) "with_order_execution" (.bool (.lit false)))
     else some (.none, st)
+  | .ref 3, "_trigger_event_before_step_for_market", [.ref m] =>
+    if sh.resume (ticksSoFar st.calls) (m - 5) then
+      some (.none, st.set (curSession st) "with_order_execution" (.bool (.lit true)))
+    else some (.none, st)
+  | .ref 3, "_trigger_event_after_step_for_market", [_] => some (.none, st)
+  | .ref 3, "_trigger_event_before_session", [_] => some (.none, st)
+  | .ref 3, "_trigger_event_after_session", [_] => some (.none, st)
+  | .ref 3, "_update_times_on_markets", [_] => some (.none, st)
+  | .none, "SimulationBeginLog", [_] => some (.ref 800, st)
+  | .none, "SimulationEndLog", [_] => some (.ref 801, st)
+  | .none, "SessionBeginLog", [.ref s, _] => some (.ref (600 + s), st)
+  | .none, "SessionEndLog", [.ref s, _] => some (.ref (700 + s), st)
+  | .none, "MarketStepBeginLog", [_, .ref m, _] => some (.ref (400 + m), st)
+  | .none, "MarketStepEndLog", [_, .ref m, _] => some (.ref (500 + m), st)
+  | .ref 8, "_process", [] => some (.none, st)
+  | .ref l, "read_and_write", [.ref 8] => if 400 ≤ l then some (.none, st) else none
+  | .ref l, "read_and_write_with_direct_process", [.ref 8] => if 400 ≤ l then some (.none, st) else none
   | .ref m, "_add_order", [.ref r] => if m = 5 ∨ m = 6 then some (.ref (logAddr r), st) else none
   | .ref m, "_cancel_order", [.ref r] => if m = 5 ∨ m = 6 then some (.ref (logAddr r), st) else none
   | .ref m, "_execution", [] =>
@@ -188,7 +230,7 @@ def argObs : Val → Obs
   | v => Obs.ofVal v
 
 def callObs (c : Call) : Obs :=
-  .tuple [.str c.fn, Obs.ofVal c.recv, match c.args.head? with | some v => argObs v | Option.none => .absent]
+  .tuple [.str c.fn, Obs.ofVal c.recv, .tuple (c.args.map argObs)]
 
 /-- the extern calls in program order (the random generator's own calls left out), then the
 session's execution flag — or the exception -/
@@ -223,29 +265,57 @@ def RShape.requests (sh : RShape) (l : List Nat) : List Request :=
   l.filterMap (fun a => (sh.reqs.find? (fun r => r.addr = a)).map sh.request)
 
 /-- one call as observed -/
-def cCall (fn : String) (recv : Nat) (arg : CObs K) : CObs K := .tuple [.str fn, .ref recv, arg]
+def cCall (fn : String) (recv : CObs K) (args : List (CObs K)) : CObs K := .tuple [.str fn, recv, .tuple args]
 
-/-- the extern calls an event of the model's trace stands for -/
-def evCalls : Ev → List (CObs K)
-  | .hookOrderBefore r _ => [cCall "_trigger_event_before_order" 3 (.ref r)]
-  | .addOrder m r => [cCall "_add_order" (mktAddr m) (.ref r)]
-  | .cbSubmitted a r => [cCall "submitted_order" (agentAddr a) (.ref (logAddr r))]
-  | .hookOrderAfter r _ => [cCall "_trigger_event_after_order" 3 (.ref (logAddr r))]
-  | .hookCancelBefore r _ => [cCall "_trigger_event_before_cancel" 3 (.ref r)]
-  | .cancel m r => [cCall "_cancel_order" (mktAddr m) (.ref r)]
-  | .cbCanceled a r => [cCall "canceled_order" (agentAddr a) (.ref (logAddr r))]
-  | .hookCancelAfter r _ => [cCall "_trigger_event_after_cancel" 3 (.ref (logAddr r))]
-  | .execution m => [cCall "_execution" (mktAddr m) .absent]
-  | .ledger fs => [cCall "_update_agents_for_execution" 3 (.tuple (fs.map CObs.ref))]
-  | .cbExecuted a f => [cCall "executed_order" (agentAddr a) (.ref f)]
-  | .hookExecAfter f _ => [cCall "_trigger_event_after_execution" 3 (.ref f)]
-  | .consult a _ => [cCall "submit_orders" (agentAddr a) (.tuple [.ref 5, .ref 6])]
-  | _ => []
+def mkts : CObs K := .tuple [.ref 5, .ref 6]
+
+/-- the extern calls an event of the model's trace stands for; `ses` = address of the session in force.
+(`setRunning` is a field write, not a call; the clocks of all markets are advanced by one call, which
+stands where the model has the tick of the first market.) -/
+def evCalls (ses : Nat) : Ev → List (CObs K)
+  | .hookOrderBefore r _ => [cCall "_trigger_event_before_order" (.ref 3) [.ref r]]
+  | .addOrder m r => [cCall "_add_order" (.ref (mktAddr m)) [.ref r]]
+  | .cbSubmitted a r => [cCall "submitted_order" (.ref (agentAddr a)) [.ref (logAddr r)]]
+  | .hookOrderAfter r _ => [cCall "_trigger_event_after_order" (.ref 3) [.ref (logAddr r)]]
+  | .hookCancelBefore r _ => [cCall "_trigger_event_before_cancel" (.ref 3) [.ref r]]
+  | .cancel m r => [cCall "_cancel_order" (.ref (mktAddr m)) [.ref r]]
+  | .cbCanceled a r => [cCall "canceled_order" (.ref (agentAddr a)) [.ref (logAddr r)]]
+  | .hookCancelAfter r _ => [cCall "_trigger_event_after_cancel" (.ref 3) [.ref (logAddr r)]]
+  | .execution m => [cCall "_execution" (.ref (mktAddr m)) []]
+  | .ledger fs => [cCall "_update_agents_for_execution" (.ref 3) [.tuple (fs.map CObs.ref)]]
+  | .cbExecuted a f => [cCall "executed_order" (.ref (agentAddr a)) [.ref f]]
+  | .hookExecAfter f _ => [cCall "_trigger_event_after_execution" (.ref 3) [.ref f]]
+  | .consult a _ => [cCall "submit_orders" (.ref (agentAddr a)) [mkts]]
+  | .simBegin => [cCall "SimulationBeginLog" .none [.ref 3], cCall "read_and_write" (.ref 800) [.ref 8]]
+  | .simEnd => [cCall "SimulationEndLog" .none [.ref 3], cCall "read_and_write" (.ref 801) [.ref 8]]
+  | .flush => [cCall "_process" (.ref 8) []]
+  | .sessionBegin k => [cCall "SessionBeginLog" .none [.ref (sessAddr k), .ref 3],
+                        cCall "read_and_write" (.ref (600 + sessAddr k)) [.ref 8]]
+  | .sessionEnd k => [cCall "SessionEndLog" .none [.ref (sessAddr k), .ref 3],
+                      cCall "read_and_write" (.ref (700 + sessAddr k)) [.ref 8]]
+  | .hookSessionBefore k _ => [cCall "_trigger_event_before_session" (.ref 3) [.ref (sessAddr k)]]
+  | .hookSessionAfter k _ => [cCall "_trigger_event_after_session" (.ref 3) [.ref (sessAddr k)]]
+  | .hookStepBefore m _ => [cCall "_trigger_event_before_step_for_market" (.ref 3) [.ref (mktAddr m)]]
+  | .stepBegin m _ => [cCall "MarketStepBeginLog" .none [.ref ses, .ref (mktAddr m), .ref 3],
+                       cCall "read_and_write_with_direct_process" (.ref (400 + mktAddr m)) [.ref 8]]
+  | .stepEnd m _ => [cCall "MarketStepEndLog" .none [.ref ses, .ref (mktAddr m), .ref 3],
+                     cCall "read_and_write_with_direct_process" (.ref (500 + mktAddr m)) [.ref 8]]
+  | .hookStepAfter m _ => [cCall "_trigger_event_after_step_for_market" (.ref 3) [.ref (mktAddr m)]]
+  | .tick m => if m = 0 then [cCall "_update_times_on_markets" (.ref 3) [mkts]] else []
+  | .setRunning _ _ => []
+  | .abort => []
+
+/-- a whole trace: the session in force changes at each before-session dispatch -/
+def traceCalls : Nat → List Ev → List (CObs K)
+  | _, [] => []
+  | ses, e :: es =>
+    let ses' := match e with | .hookSessionBefore k _ => sessAddr k | _ => ses
+    evCalls ses' e ++ traceCalls ses' es
 
 /-- what the model's outcome looks like from outside: the calls and the flag, or (an abort of
 `_handle_orders` with every request accepted is the owner check) `ValueError` -/
 def outObs (o : Out) : CObs K :=
-  if o.ok then .tuple [.tuple (o.tr.flatMap evCalls), .bool o.flag] else .err (.raise "ValueError")
+  if o.ok then .tuple [.tuple (traceCalls 4 o.tr), .bool o.flag] else .err (.raise "ValueError")
 
 /-- valuation: placement, flag, rate, caps, the draws -/
 def rhoRun (placement flag : Bool) (rate : K) (draw : Nat → K) (capH capN : Int) : Rho K :=
@@ -262,5 +332,63 @@ def RShape.rounds (sh : RShape) (rate : K) (draw : Nat → K) : Nat → Nat → 
 /-- the model's `handle` on the shape -/
 def RShape.model (sh : RShape) (flag : Bool) (rate : K) (draw : Nat → K) (capH : Int) : Out :=
   handle 0 capH (sh.shuffled.map (fun b => (0, sh.requests b))) (sh.rounds rate draw 0 sh.shuffled.length) flag
+
+/-! ### whole runs: `SequentialRunner._run` against `Runner.run` -/
+
+/-- what is quantified per session -/
+structure SessP (K : Type) where
+  placement : Bool
+  flag : Bool
+  rate : K
+  capH : Int
+  capN : Int
+
+/-- valuation for runs of up to two sessions -/
+def rhoRun2 (s0 s1 : SessP K) (draw : Nat → K) : Rho K :=
+  { i := fun k => if k = 1 then s0.capH else if k = 2 then s0.capN else if k = 11 then s1.capH
+      else if k = 12 then s1.capN else 0
+    n := fun k => if k = 1 then s0.rate else if k = 100 then s1.rate else draw (k - 2)
+    b := fun k => if k = 1 then s0.placement else if k = 2 then s0.flag else if k = 11 then s1.placement
+      else if k = 12 then s1.flag else false }
+
+def SessP.cfg (s : SessP K) (steps : Nat) : SessionCfg :=
+  { steps := steps, placement := s.placement, execution := s.flag, maxNormal := s.capN, maxHft := s.capH }
+
+/-- the tapes of `n` steps, the first of which begins when the clocks were advanced `tick` times.  (The
+shapes have at most one normal batch in the whole run: its round uses draw 0.) -/
+def RShape.stepTapes (sh : RShape) (rate : K) (draw : Nat → K) : Nat → Nat → List StepTape
+  | _, 0 => []
+  | tick, n + 1 =>
+    { resume := sh.resume tick, perm := sh.nperm, answer := fun a => sh.requests (sh.answer a),
+      shuffle := List.range sh.shuffled.length, rounds := sh.rounds rate draw 0 sh.shuffled.length }
+      :: sh.stepTapes rate draw (tick + 1) n
+
+def twoMarkets : Markets := [(0, false), (1, false)]
+
+/-- the model's run of the shape (one or two sessions) -/
+def RShape.runModel (sh : RShape) (s0 s1 : SessP K) (draw : Nat → K) : List Ev × Bool :=
+  match sh.steps with
+  | [n0] => runSessions twoMarkets 0 0 [s0.cfg n0] [sh.stepTapes s0.rate draw 1 n0]
+  | [n0, n1] => runSessions twoMarkets 0 0 [s0.cfg n0, s1.cfg n1]
+      [sh.stepTapes s0.rate draw 1 n0, sh.stepTapes s1.rate draw (1 + n0) n1]
+  | _ => ([], true)
+
+/-- what `_run` shows: the extern calls, and the markets' running flags afterwards — or the exception -/
+def runObs : Except Py.Err (Val × St) → Obs
+  | .ok (_, st) =>
+    .tuple [.tuple ((st.calls.reverse.filter (fun c => !(c.fn == "sample" || c.fn == "random"))).map callObs),
+            Obs.ofOpt (st.heap 5 "_is_running"), Obs.ofOpt (st.heap 6 "_is_running")]
+  | .error e => .err e
+
+/-- the model's run as observed: `run`'s trace (begin and end of the simulation around the sessions),
+the markets' flags = the execution switch of the last session as it stood when that session began -/
+def runOut (r : List Ev × Bool) (lastFlag : Bool) : CObs K :=
+  if r.2 then
+    .tuple [.tuple (traceCalls 4 ([Ev.simBegin, Ev.flush] ++ ticks twoMarkets ++ r.1 ++ [Ev.simEnd, Ev.flush])),
+            .bool lastFlag, .bool lastFlag]
+  else .err (.raise "ValueError")
+
+def runPaths (sh : RShape) :=
+  obsPathsPG runObs (rEnv sh) 200 "SequentialRunner._run" [.ref 1] (rSt sh)
 
 end Pams.Src
